@@ -7,6 +7,9 @@ require (
 	github.com/pborman/uuid v1.2.1
 )
 
-require github.com/google/uuid v1.6.0 // indirect
+require (
+	github.com/google/uuid v1.6.0 // indirect
+	golang.org/x/sync v0.14.0 // indirect
+)
 
 replace github.com/google/badwolf => /repo
